@@ -104,7 +104,7 @@ func (g *Gen) instr(st *State, ins ssa.Instruction) {
 		case *types.Slice:
 			s := g.term(x.X)
 			g.safety("bounds", st, fmt.Sprintf("(and (<= 0 %s) (< %s (slen %s)))", i, i, s), x.Pos())
-			g.setVal(x, fmt.Sprintf("(idx (sarr %s) (+ (soff %s) %s))", s, s, i))
+			g.setVal(x, fmt.Sprintf("(sidx %s %s)", s, i))
 		case *types.Pointer: // pointer to array
 			arr := u.Elem().Underlying().(*types.Array)
 			g.safety("bounds", st, fmt.Sprintf("(and (<= 0 %s) (< %s %d))", i, i, arr.Len()), x.Pos())
@@ -583,17 +583,10 @@ func (g *Gen) binop(st *State, x *ssa.BinOp) {
 			g.setVal(x, fmt.Sprintf("(%s %s %s)", op, a, b))
 			return
 		}
-		// bit operations: uninterpreted per operator (deterministic function of operands)
-		fn := "bit_" + map[token.Token]string{token.AND: "and", token.OR: "or", token.XOR: "xor", token.SHL: "shl", token.SHR: "shr", token.AND_NOT: "andnot"}[x.Op]
-		if !g.sc.declared[fn] {
-			g.sc.declared[fn] = true
-			g.sc.emit("(declare-fun %s (Int Int) Int)", fn)
-			if fn == "bit_or" {
-				g.sc.emit("(assert (forall ((a Int) (b Int)) (! (and (= (bit_or a a) a) (= (bit_or a 0) a) (= (bit_or 0 a) a)) :pattern ((bit_or a b)))))")
-			}
-		}
+		// bit operations: constants are folded, otherwise an uninterpreted function per operator
+		opn := map[token.Token]string{token.AND: "and", token.OR: "or", token.XOR: "xor", token.SHL: "shl", token.SHR: "shr", token.AND_NOT: "andnot"}[x.Op]
 		n := g.freshOf("bits", x.Type())
-		g.sc.emit("(assert (= %s (%s %s %s)))", n, fn, a, b)
+		g.sc.emit("(assert (= %s %s))", n, g.bitOp(opn, a, b))
 		g.val[x] = n
 	default:
 		g.refusef("binop %s", x.Op)
@@ -612,3 +605,39 @@ func (g *Gen) runDefers(st *State, x *ssa.RunDefers) {
 }
 
 var _ = strings.Join
+
+// bitOp folds constant operands and otherwise applies an uninterpreted function with a few sound axioms.
+func (g *Gen) bitOp(op, a, b string) string {
+	ai, aok := new(big.Int).SetString(a, 10)
+	bi, bok := new(big.Int).SetString(b, 10)
+	if aok && bok && ai.Sign() >= 0 && bi.Sign() >= 0 {
+		r := new(big.Int)
+		switch op {
+		case "and":
+			return r.And(ai, bi).String()
+		case "or":
+			return r.Or(ai, bi).String()
+		case "xor":
+			return r.Xor(ai, bi).String()
+		case "andnot":
+			return r.AndNot(ai, bi).String()
+		case "shl":
+			if bi.IsInt64() && bi.Int64() < 64 {
+				return r.Lsh(ai, uint(bi.Int64())).String()
+			}
+		case "shr":
+			if bi.IsInt64() && bi.Int64() < 1024 {
+				return r.Rsh(ai, uint(bi.Int64())).String()
+			}
+		}
+	}
+	fn := "bit_" + op
+	if !g.sc.declared[fn] {
+		g.sc.declared[fn] = true
+		g.sc.emit("(declare-fun %s (Int Int) Int)", fn)
+		if fn == "bit_or" {
+			g.sc.emit("(assert (forall ((a Int) (b Int)) (! (and (= (bit_or a a) a) (= (bit_or a 0) a) (= (bit_or 0 a) a)) :pattern ((bit_or a b)))))")
+		}
+	}
+	return fmt.Sprintf("(%s %s %s)", fn, a, b)
+}
